@@ -1073,7 +1073,16 @@ impl<R: Read, A: ArchTokens> Iterator for Lexer<R, A> {
 
                     // It must be 1 char (stash the other char)
                     self.stash = self.buffer.pop();
-                    let name = SymbolName::parse(&self.buffer).unwrap();
+                    let name = match SymbolName::parse(&self.buffer) {
+                        Some(name) => name,
+                        // e.g. a lone `=`: it can start a symbol but is not one by itself
+                        None => {
+                            return Some(Err(LexerError::UnrecognizedInput {
+                                loc: self.tok_loc,
+                                msg: self.buffer.clone(),
+                            }))
+                        }
+                    };
                     return Some(Ok(Token::Symbol {
                         loc: self.tok_loc,
                         name,
